@@ -79,6 +79,13 @@ def specs(tier: str):
                         p['trigger'] = ev('t', wt, al_t, ptg)
                     p['behaviour'] = ev('b', wb, al_b, pb)
                     yield p
+                    if fam in ('none', 'threshold') and max(wb, wt, wq) == 3:
+                        # the same alternatives nested to the LEFT, ((x or y) or z): only the public constructors build this
+                        q = dict(p)
+                        for key in ('behaviour', 'trigger', 'terminator'):
+                            if q.get(key) and q[key][0] == 'or' and len(q[key]) == 4:
+                                q[key] = ('orL',) + q[key][1:]
+                        yield q
 
 
 HIST_PARTNER = {'absence': 'existence', 'existence': 'absence', 'response': 'prevention', 'prevention': 'response', 'requirement': 'requirement'}
@@ -135,9 +142,14 @@ def case(item):
         P = P0.but(pattern=props.build_property(spec).pattern)
         text += '  [derived from its sibling after canonical_form]'
     try:
+        first = canonical_form(P)
+        if isinstance(first, list):
+            first.clear()          # the returned list is the caller's: draining it must not change what a later call returns
         Qs = canonical_form(P)
     except Exception as e:
         return ('exc', type(e).__name__, text, None)
+    if any(spec.get(k) and spec[k][0] == 'orL' for k in ('behaviour', 'trigger', 'terminator')):
+        text += '  [alternatives nested to the left through the constructors]'
     out = []
     readings = ('A', 'B') if spec['scope'] == 'after_until' else ('A',)
     for rd in readings:
@@ -236,6 +248,7 @@ def replay(data) -> int:
     from hpl.parser import property_parser
     from hpl.rewrite import canonical_form
     text, derived = data['text'], False
+    text = text.split('  [alternatives nested')[0]
     if '  [derived' in text:
         text, derived = text.split('  [derived')[0], True
     P = property_parser().parse(text)
